@@ -6,21 +6,21 @@ use crate::common::frame::{FrameHeader, frame_ok, frame_ok_p};
 use crate::common::traits::Serialize;
 use crate::common::serialize::{bit, be16_at};
 use crate::exception::ExceptionCode;
-use crate::server::handler::RequestHandler;
+use crate::server::handler::{RequestHandler, HState};
 use crate::server::request::SpecRequest;
 use crate::types::*;
 
 // ---- the reference server's reply (C01), stated over the handler's possible answers ----
 pub open spec fn fcv(f: FunctionCode) -> u8 { crate::common::function::spec_fc_value(f) }
 
-pub open spec fn may_bit<H: RequestHandler + ?Sized>(h: &H, coils: bool, start: u16, i: int, r: Result<bool, ExceptionCode>) -> bool {
-    if coils { h.may_read_coil((start + i) as u16, r) } else { h.may_read_discrete_input((start + i) as u16, r) }
+pub open spec fn may_bit(h: HState, coils: bool, start: u16, i: int, r: Result<bool, ExceptionCode>) -> bool {
+    if coils { (h.may_coil)((start + i) as u16, r) } else { (h.may_di)((start + i) as u16, r) }
 }
-pub open spec fn may_reg<H: RequestHandler + ?Sized>(h: &H, holding: bool, start: u16, i: int, r: Result<u16, ExceptionCode>) -> bool {
-    if holding { h.may_read_holding_register((start + i) as u16, r) } else { h.may_read_input_register((start + i) as u16, r) }
+pub open spec fn may_reg(h: HState, holding: bool, start: u16, i: int, r: Result<u16, ExceptionCode>) -> bool {
+    if holding { (h.may_hr)((start + i) as u16, r) } else { (h.may_ir)((start + i) as u16, r) }
 }
 // byte count, then one bit per address of the range - each a value the handler supplies for that address - LSB first, padding zero
-pub open spec fn read_bits_ok<H: RequestHandler + ?Sized>(h: &H, coils: bool, range: AddressRange, o: Seq<u8>) -> bool {
+pub open spec fn read_bits_ok(h: HState, coils: bool, range: AddressRange, o: Seq<u8>) -> bool {
     let n = range.count as int;
     &&& o.len() == 1 + (n + 7) / 8
     &&& o[0] as int == (n + 7) / 8
@@ -28,16 +28,16 @@ pub open spec fn read_bits_ok<H: RequestHandler + ?Sized>(h: &H, coils: bool, ra
     &&& (n % 8 != 0 ==> forall|k: u8| n % 8 <= k < 8 ==> !#[trigger] bit(o[o.len() - 1], k as int))
 }
 // byte count, then one big-endian register per address of the range
-pub open spec fn read_regs_ok<H: RequestHandler + ?Sized>(h: &H, holding: bool, range: AddressRange, o: Seq<u8>) -> bool {
+pub open spec fn read_regs_ok(h: HState, holding: bool, range: AddressRange, o: Seq<u8>) -> bool {
     let n = range.count as int;
     &&& o.len() == 1 + 2 * n
     &&& o[0] as int == 2 * n
     &&& (forall|i: int| 0 <= i < n ==> #[trigger] may_reg(h, holding, range.start, i, Ok(be16_at(o, 1 + 2 * i))))
 }
-pub open spec fn bits_refused<H: RequestHandler + ?Sized>(h: &H, coils: bool, range: AddressRange, e: ExceptionCode) -> bool {
+pub open spec fn bits_refused(h: HState, coils: bool, range: AddressRange, e: ExceptionCode) -> bool {
     exists|i: int| 0 <= i < range.count && #[trigger] may_bit(h, coils, range.start, i, Err(e))
 }
-pub open spec fn regs_refused<H: RequestHandler + ?Sized>(h: &H, holding: bool, range: AddressRange, e: ExceptionCode) -> bool {
+pub open spec fn regs_refused(h: HState, holding: bool, range: AddressRange, e: ExceptionCode) -> bool {
     exists|i: int| 0 <= i < range.count && #[trigger] may_reg(h, holding, range.start, i, Err(e))
 }
 // bodies described without reference to Serialize implementations (see the note at the top of this file)
@@ -46,11 +46,11 @@ pub open spec fn pair_body(a: u16, b: u16) -> spec_fn(Seq<u8>) -> bool { |o: Seq
 pub open spec fn exc_frame(tcp: bool, b: Seq<u8>, header: FrameHeader, f: FunctionCode, e: ExceptionCode) -> bool {
     frame_ok_p(tcp, b, b.len() as int, header, fcv(f) | 0x80, exc_body(e))
 }
-pub open spec fn read_bits_reply<H: RequestHandler + ?Sized>(tcp: bool, b: Seq<u8>, header: FrameHeader, f: FunctionCode, h: &H, coils: bool, range: AddressRange) -> bool {
+pub open spec fn read_bits_reply(tcp: bool, b: Seq<u8>, header: FrameHeader, f: FunctionCode, h: HState, coils: bool, range: AddressRange) -> bool {
     frame_ok_p(tcp, b, b.len() as int, header, fcv(f), |o: Seq<u8>| read_bits_ok(h, coils, range, o))
     || exists|e: ExceptionCode| #[trigger] bits_refused(h, coils, range, e) && exc_frame(tcp, b, header, f, e)
 }
-pub open spec fn read_regs_reply<H: RequestHandler + ?Sized>(tcp: bool, b: Seq<u8>, header: FrameHeader, f: FunctionCode, h: &H, holding: bool, range: AddressRange) -> bool {
+pub open spec fn read_regs_reply(tcp: bool, b: Seq<u8>, header: FrameHeader, f: FunctionCode, h: HState, holding: bool, range: AddressRange) -> bool {
     frame_ok_p(tcp, b, b.len() as int, header, fcv(f), |o: Seq<u8>| read_regs_ok(h, holding, range, o))
     || exists|e: ExceptionCode| #[trigger] regs_refused(h, holding, range, e) && exc_frame(tcp, b, header, f, e)
 }
@@ -62,7 +62,7 @@ pub open spec fn write_reply(tcp: bool, b: Seq<u8>, header: FrameHeader, f: Func
     }
 }
 // [C01] the reply bytes for decoded request `q`, given the handler `h` consulted for reads and the result `res` of the write call
-pub open spec fn reply_ok<H: RequestHandler + ?Sized>(tcp: bool, b: Seq<u8>, header: FrameHeader, q: SpecRequest, h: &H, res: Result<(), ExceptionCode>) -> bool {
+pub open spec fn reply_ok(tcp: bool, b: Seq<u8>, header: FrameHeader, q: SpecRequest, h: HState, res: Result<(), ExceptionCode>) -> bool {
     match q {
         SpecRequest::ReadCoils(range) => read_bits_reply(tcp, b, header, FunctionCode::ReadCoils, h, true, range),
         SpecRequest::ReadDiscreteInputs(range) => read_bits_reply(tcp, b, header, FunctionCode::ReadDiscreteInputs, h, false, range),
